@@ -1,7 +1,9 @@
 import Driver.Sexp
-import Pcore.Model.StringHash
-import Pcore.Model.HashImpl
+import Pcore.Model.StringHashFacts
+import Pcore.Model.HashFacts
 import Pcore.Model.ArrayImpl
+import Pcore.Generated.StringHashFacts
+import Pcore.Generated.HashOps
 /-!
 Driver ops for C09 (syntax in harness/c09/c09.go): one line is a whole history.
 
@@ -9,11 +11,12 @@ Driver ops for C09 (syntax in harness/c09/c09.go): one line is a whole history.
   `hash <step>*`  types.Hash pool        → `Pcore.Coll.Hash` with `key = id` on canonical value texts
   `arr <step>*`   types.Array pool       → `Pcore.Coll.Arr`  on canonical value texts
 
+The models are the ones driven by the regenerated fact tables (`stepSHT shFacts`, `Hash.mergeT hashFacts`, …).
 Keys and values travel as their canonical text (`1`, `x31`, `(a 1)`): two values are equal iff their texts are
 equal, so `px.ToKey` is modelled by the identity on texts (that `ToKey` respects equality is property C07).
 -/
 namespace C09
-open Sx Pcore.Coll
+open Sx Pcore.Coll Pcore.Generated
 
 def sp (xs : List String) : String := " ".intercalate xs
 
@@ -125,7 +128,7 @@ def runSh (steps : List ShStep) (uni : List String) : String := Id.run do
       | some o => old := some cur; cur := o; res := "swap"
     | .empty => old := some cur; cur := SH.emptyFrozen; res := "empty"
     | .op name op =>
-      let r := stepSH cur op
+      let r := stepSHT shFacts cur op
       match op with
       | .copy => old := some cur
       | .merge _ => old := some cur
@@ -220,7 +223,7 @@ def runHash (steps : List HStep) (uni : List String) : String := Id.run do
       match pool[i]? with
       | none => res := "bad-ref"
       | some (h, m) =>
-        let (h', r) := h.merge id [(k, v)]
+        let (h', r) := h.mergeT hashFacts id [(k, v)]
         pool := pool.set! i (h', m)
         match r with
         | some n => pool := pool.push (n, false); res := "put"; made := some (pool.size - 1)
@@ -228,7 +231,7 @@ def runHash (steps : List HStep) (uni : List String) : String := Id.run do
     | .merge i j =>
       match pool[i]?, pool[j]? with
       | some (h, m), some (o, _) =>
-        let (h', r) := h.merge id o.entries
+        let (h', r) := h.mergeT hashFacts id o.entries
         pool := pool.set! i (h', m)
         match r with
         | some n => pool := pool.push (n, false); res := "merge"; made := some (pool.size - 1)
@@ -267,14 +270,14 @@ def runHash (steps : List HStep) (uni : List String) : String := Id.run do
       | none => res := "bad-ref"
       | some (h, m) =>
         if !m then res := "skip" else
-        match h.putM id k v with
+        match h.putAllT hashFacts id [(k, v)] with
         | some n => pool := pool.set! i (n, true); res := "mput"; made := some i
         | none => res := "mput"; fault := true
     | .mputall i j =>
       match pool[i]?, pool[j]? with
       | some (h, m), some (o, _) =>
         if !m then res := "skip" else
-        match h.putAll id o.entries with
+        match h.putAllT hashFacts id o.entries with
         | some n => pool := pool.set! i (n, true); res := "mputall"; made := some i
         | none => res := "mputall"; fault := true
       | _, _ => res := "bad-ref"
